@@ -35,6 +35,17 @@ def normalize_types(f):
     return normalize_helper
 
 
+def _ieee_div_by_zero(dividend: float, zero: float) -> float:
+    """
+    IEEE-754 quotient of `dividend` by a (signed) zero, which Python refuses to compute: NaN for 0/0 and NaN/0, else an
+    infinity whose sign is the exclusive or of the operands' signs (the dividend may itself be an infinity).
+    """
+    if math.isnan(dividend) or dividend == 0.0:
+        return math.nan
+    negative = math.copysign(1.0, dividend) * math.copysign(1.0, zero) < 0
+    return -math.inf if negative else math.inf
+
+
 class FPV:
     """A concrete floating point value. Used in the concrete backend for
     calculations.  Any use outside of claripy should use `claripy.FPV`
@@ -96,9 +107,7 @@ class FPV:
         try:
             return FPV(self.value / o.value, self.sort)
         except ZeroDivisionError:
-            if str(self.value * o.value)[0] == "-":
-                return FPV(float("-inf"), self.sort)
-            return FPV(float("inf"), self.sort)
+            return FPV(_ieee_div_by_zero(self.value, o.value), self.sort)
 
     def __floordiv__(self, other):  # decline to involve integers in this floating point process
         return self.__truediv__(other)
@@ -133,9 +142,7 @@ class FPV:
         try:
             return FPV(o.value / self.value, self.sort)
         except ZeroDivisionError:
-            if str(o.value * self.value)[0] == "-":
-                return FPV(float("-inf"), self.sort)
-            return FPV(float("inf"), self.sort)
+            return FPV(_ieee_div_by_zero(o.value, self.value), self.sort)
 
     def __rfloordiv__(self, other):  # decline to involve integers in this floating point process
         return self.__rtruediv__(other)
